@@ -17,6 +17,7 @@ clock is involved.  The scheduler logs every scheduling point (the internal trac
 import collections
 import concurrent.futures as cf
 import random
+import sys
 import threading
 
 _real_deque = collections.deque
@@ -393,6 +394,9 @@ def make_primitives(S: Scheduler):
             f = GatedFuture()
             S.log(S.me() or self.t, "submit", (self.name, getattr(fn, "__name__", str(fn))))
             self.q.append((f, fn, a, k))
+            # the task is now visible to the worker: the submitting thread may be pre-empted right here, before its next statement
+            # (seeded change C05-f moved a statement of _start() behind the submit of the first tick: a lost wake-up)
+            S.point("submit")
             return f
 
         def shutdown(self, wait=True):
@@ -400,6 +404,17 @@ def make_primitives(S: Scheduler):
 
     class GatedDeque(_real_deque):
         """deque whose operations become scheduling points once a second thread has touched it."""
+
+        _shared_sites = set()   # creation sites (file, line) of deques that turned out to be shared between threads: rex re-creates its
+                                # deques at every reset(), so from the second episode on the FIRST two touches of such a deque race as well
+
+        def __init__(self, *a, **k):
+            super().__init__(*a, **k)
+            try:
+                fr = sys._getframe(1)
+                self._site = (fr.f_code.co_filename, fr.f_lineno)
+            except Exception:  # noqa
+                self._site = None
 
         def _touch(self, op):
             t = S.me()
@@ -409,11 +424,13 @@ def make_primitives(S: Scheduler):
                 own = self._owners
             except AttributeError:
                 own = self._owners = set()
-                self._shared = False
+                self._shared = getattr(self, "_site", None) in GatedDeque._shared_sites
             if not self._shared:
                 own.add(t.name)
                 if len(own) > 1:
                     self._shared = True
+                    if getattr(self, "_site", None) is not None:
+                        GatedDeque._shared_sites.add(self._site)
             if self._shared and S.deque_points:
                 S.point("deque." + op)
 
